@@ -165,6 +165,27 @@ fn vp_native_head_hostile_inputs_no_panic_body() {
         assert!(r.is_ok(), "the parser panicked on a {} response with status token {:?} and fields {:?}", method, token, fields);
         cases += 1; crate::verif_native_watchdog::progress();
     } } }
+    // framing-field values at and beyond the limits of the integer types that hold them (a length that needs 64 / 65 / 67 bits,
+    // leading zeros and signs, twenty and more digits), under every framing and for every way of reading the body
+    let lengths = ["18446744073709551615", "18446744073709551616", "18446744073709551625", "99999999999999999999", "100000000000000000000", "00000000000000000000018446744073709551616",
+        "+18446744073709551616", "-1", "9223372036854775807", "9223372036854775808", "4294967295", "4294967296", "184467440737095516150", "1844674407370955161", "0x10", "1e3", ""];
+    for cl in lengths { for extra in ["", "Content-Encoding: gzip\r\n", "Connection: close\r\n"] { for method in [Method::GET, Method::HEAD] { for reader in 0..3 {
+        let w = format!("HTTP/1.1 200 OK\r\nContent-Length: {}\r\n{}\r\nsome body bytes", cl, extra).into_bytes();
+        let req = PreparedRequest::new(method.clone(), "http://a.test/");
+        let r = std::panic::catch_unwind(std::panic::AssertUnwindSafe(|| { if let Ok(mut resp) = parse_response(BaseStream::mock(w), &req, req.url()) {
+            match reader { 0 => { let _ = resp.bytes(); } 1 => { let mut b = [0u8; 7]; for _ in 0..8 { if !matches!(std::io::Read::read(&mut resp, &mut b), Ok(n) if n > 0) { break; } } } _ => { let _ = resp.text_utf8(); } }
+        } }));
+        assert!(r.is_ok(), "the client panicked on a {} response with Content-Length {:?} and {:?}", method, cl, extra);
+        cases += 1; crate::verif_native_watchdog::progress();
+    } } } }
+    // chunk sizes at the same limits
+    for size in ["ffffffffffffffff", "10000000000000000", "fffffffffffffffff", "7fffffffffffffff", "8000000000000000", "ffffffff", "100000000", "0000000000000000000000001", "-1", "+1"] {
+        let w = format!("HTTP/1.1 200 OK\r\nTransfer-Encoding: chunked\r\n\r\n{}\r\nabc\r\n0\r\n\r\n", size).into_bytes();
+        let req = PreparedRequest::new(Method::GET, "http://a.test/");
+        let r = std::panic::catch_unwind(std::panic::AssertUnwindSafe(|| { let _ = parse_response(BaseStream::mock(w), &req, req.url()).and_then(|r| r.bytes()); }));
+        assert!(r.is_ok(), "the client panicked on a chunk of declared size {:?}", size);
+        cases += 1; crate::verif_native_watchdog::progress();
+    }
     println!("VP-NATIVE head_hostile_inputs_no_panic cases={}", cases);
 }
 
